@@ -23,6 +23,7 @@ func checkC01(r *core.Run) {
 	r.Rule("D1: every call to time.Now/Since/Until, math/rand, crypto/rand, os.*, runtime.Num*, uuid V1/V4, reflect MapKeys/MapRange in consensus-reachable code may only feed telemetry/logging")
 	r.Rule("D2: every `range` over a map in consensus-reachable code has an order-insensitive body (per-key store access keyed by the range key, map inserts, integer/bool accumulation; no append, events, bank, early exit, constant-key writes)")
 	r.Rule("D3: no store/map update/in-place mutator rooted at a package-level variable or at a field of a long-lived pointer receiver")
+	r.Rule("D1-dep: module code never sets DidDocumentMetadata.NextUpdate/Updated, the only inputs under which the DID library's VerifyJWS consults time.Now() (exception to A-deps found by reading sao-did v0.0.12)")
 	r.Rule("D4: no go/chan/select; D5: no float x*y±z without explicit conversion")
 	r.Assume(aDeps)
 	r.Assume(aCG)
@@ -55,6 +56,7 @@ func checkC01(r *core.Run) {
 	r.Floor("nondet_source_sites", d1sites, 1) // the telemetry time.Now in node.BeginBlocker
 	r.Floor("map_range_sites", d2sites, 3)     // Terminate, UpdateMeta force-push, DoPenalty
 	ruleD3(r)
+	ruleD1Dep(r)
 }
 
 func checkC03(r *core.Run) {
